@@ -505,6 +505,12 @@ def class_pairs():
                                     ("inherited field", "d", "b.v = new Cat();", "b.v = new Dog();"), ("upcast to another specialisation", "d", "Box<Cat> w = b;", "Box<Dog> w = b;")]:
         P.append(("a value of the wrong type through a generic base class", pos, gbx % (sup, bad_s), gbx % (sup, good_s)))
     P.append(("a value of the wrong type through a generic base class", "super(...) argument", gbx % ("new Cat()", ""), gbx % ("d", "")))
+    # a final field without initialiser: the constructor's one permitted write is an assignment, never an increment
+    ff = "class A { public final int n; public int seen = 0; public constructor(int start) -> A { %s return this; } }\nfunction main() -> void { A a = new A(3); echo(a.seen); }"
+    for pos, bad_s, good_s in [("bare postfix as the only write", "this.seen = start; n++;", "this.seen = start; n = 1;"), ("bare postfix decrement", "n--;", "n = 0;"),
+                               ("postfix after the initialising assignment", "n = start; n++;", "n = start; seen++;"),
+                               ("this.n postfix", "this.n++;", "this.n = 1;")]:
+        P.append(("final field incremented", pos, ff % bad_s, ff % good_s))
     # array element types are primitives
     ae = "class Q { public constructor() -> Q { } }\nfunction main() -> void { %s echo(1); }"
     for pos, bad_s, good_s in [("local array of class references", "Q[] a;", "Q a = null;"), ("array of class references with a literal", "Q[] a = {new Q(), new Q()};", "int[] a = {1, 2};"),
